@@ -80,9 +80,9 @@ theorem gen_epidemic_failure :
 
 set_option maxRecDepth 16384 in
 /-- Spray-and-wait: the originator gets `Multiplicity` copies and an empty sent list, a relayed bundle one
-copy and its previous node; a failure removes the first occurrence of the peer from the sent list and, only
-then, gives a copy back (under one lock). Binary spray: a bundle
-WITHOUT a BinarySprayBlock is treated as originated here — previous node not recorded (known finding). -/
+copy and its previous node (binary spray: the copies of its block, or — without a block — the full budget
+for a bundle of this node and one copy plus the previous node for a foreign one); a failure removes the first occurrence of the peer from the sent list and, only
+then, gives a copy back (under one lock). -/
 theorem gen_spray :
     Dtn7.Gen.C13.sprayNotifySkeleton =
       ["if sw.c.HasEndpoint(bp.MustBundle().PrimaryBlock.SourceNode)",
@@ -100,8 +100,13 @@ theorem gen_spray :
        "  if pnBlock, err := bp.MustBundle().ExtensionBlock(bpv7.ExtBlockTypePreviousNodeBlock); err == nil",
        "    metadata.sent = append(metadata.sent, pnBlock.Value.(*bpv7.PreviousNodeBlock).Endpoint())",
        "  bs.dataMutex.Lock()", "  bs.bundleData[bp.Id] = metadata", "  bs.dataMutex.Unlock()",
-       "else",
+       "else if bs.c.HasEndpoint(bp.MustBundle().PrimaryBlock.SourceNode)",
        "  metadata := sprayMetaData{ sent: make([]bpv7.EndpointID, 0), remainingCopies: bs.l, }",
+       "  bs.dataMutex.Lock()", "  bs.bundleData[bp.Id] = metadata", "  bs.dataMutex.Unlock()",
+       "else",
+       "  metadata := sprayMetaData{ sent: make([]bpv7.EndpointID, 0), remainingCopies: 1, }",
+       "  if pnBlock, err := bp.MustBundle().ExtensionBlock(bpv7.ExtBlockTypePreviousNodeBlock); err == nil",
+       "    metadata.sent = append(metadata.sent, pnBlock.Value.(*bpv7.PreviousNodeBlock).Endpoint())",
        "  bs.dataMutex.Lock()", "  bs.bundleData[bp.Id] = metadata", "  bs.dataMutex.Unlock()"] ∧
     Dtn7.Gen.C13.sprayFailureSkeleton =
       ["sw.dataMutex.Lock()", "defer sw.dataMutex.Unlock()", "metadata, ok := sw.bundleData[bp.Id]",
@@ -129,8 +134,7 @@ theorem gen_mule :
 /-- **`never_to_prev_node`**: for every routing algorithm (and the sensor-mule wrapper), every environment,
 every number of peers and every history of `Domain13` — the histories of C05's `Domain` in which
 applications attach no previous-node block and relayed bundles satisfy `seedsPrev` (spray: not a bundle
-of this node; binary spray: carries the BinarySprayBlock — the excluded class is the known finding,
-`binary_no_block_witness`) — no algorithm-chosen transmission goes to the node named in the bundle's
+of this node; binary spray: carries the BinarySprayBlock or is not a bundle of this node) — no algorithm-chosen transmission goes to the node named in the bundle's
 previous-node block. -/
 theorem never_to_prev_node (c : Cfg) (env : Env) (now : Nat)
     (h : List Event) (hdom : Domain13 c h) :
@@ -231,16 +235,20 @@ theorem dtlsr_failure_witness :
       = some (1, "c13-failed-peer-still-listed-dtlsr") := by
   decide
 
-/-- Binary spray, relayed bundle without a BinarySprayBlock (known finding): sent straight back. -/
-theorem binary_no_block_witness :
+/-- Binary spray, relayed bundle WITHOUT a BinarySprayBlock (e.g. from a node running another algorithm): the
+repaired `BinarySpray.NotifyNewBundle` (/repo f4a58d8) gives it a single copy and remembers where it came
+from — it is not sent back, and not sprayed at all. (Before the repair it was treated as originated here
+and went straight back to its previous node: class `c13-to-prev-node-binary-spray-without-block`, fixed.) -/
+theorem binary_no_block_not_returned_example :
     let c : Cfg := { self := 1, algo := .binarySpray, mule := false, sensorNodes := [], sprayL := 4, bcast := ⟨999, 0⟩,
-                     seqFirst := false, skipStored := false, expiryNow := true, dtlsrFail := true, holdFix := true }
+                     seqFirst := true, skipStored := true, expiryNow := true, dtlsrFail := true, holdFix := true }
     let env : Env := { sendOk := fun _ _ _ => true, prefer := fun _ _ => [], cand := fun _ _ => false }
     let b : Bundle := { tag := 1, src := ⟨7, 0⟩, ts := 900, seq := 0, dst := ⟨9, 0⟩, prev := some ⟨2, 0⟩, lifetime := 3600,
                         hop := none, age := none, delBlock := false, bsCopies := none }
-    firstFail (fun c _ o => returnFail c o) c (SpecSt.init 1000) 0
-      ((trace env (init c 1000) [.peerUp ⟨1, ⟨2, 0⟩⟩, .receive b none]).map obsOf)
-      = some (1, "c13-to-prev-node-binary-spray-without-block") := by
+    let tr := (trace env (init c 1000) [.peerUp ⟨1, ⟨2, 0⟩⟩, .receive b none, .peerUp ⟨2, ⟨3, 0⟩⟩, .retryTick]).map obsOf
+    firstFail (fun c _ o => returnFail c o) c (SpecSt.init 1000) 0 tr = none ∧
+    tr.map (fun o => o.outs.length) = [0, 0, 0, 0] ∧
+    (tr.getLast?.map fun o => o.view.spray.map fun km => (km.2.copies, km.2.sent)) = some [(1, [⟨2, 0⟩])] := by
   decide
 
 /-! ## Non-vacuity -/
